@@ -86,6 +86,24 @@ def check_run(run: WorkerRun, model: Model, res: Result, label: str) -> None:
         last = max(x for x in (d["call_t"], d["end_t"], d["start_t"]) if x is not None)
         return last >= horizon - 1000
     ds = [d for d in deliveries(run) if (d["call_t"] is not None or d["end_t"] is not None) and not cut(d)]
+    if getattr(run, "broker_kind", "memory") != "memory":
+        # on the networked brokers the disposition must also have taken effect at the server: after its last delivery was
+        # acknowledged a message is in no place (in particular not still in flight), after a nack it is dead-lettered only
+        all_ds = deliveries(run)
+        last = {}
+        for d in all_ds:
+            last[d["id"]] = d
+        places = run.msg_params(next(iter(set(sc.get("actors", {"act": "default"}).values()))))
+        for jid, d in last.items():
+            if cut(d) or len(d["calls"]) != 1 or isinstance(d["calls"][0], list):
+                continue
+            call = str(d["calls"][0])
+            here = [h["place"] for h in places.get(jid, [])]
+            want = {"ack": [], "nack": ["dead"]}.get(call)
+            if want is not None and here != want:
+                res.bad("impl", "the terminal action of the last delivery did not take effect at the broker (message still in flight / "
+                                "present elsewhere)", case={"label": label, "job": plans.get(jid), "last_delivery": {k: v for k, v in d.items() if k != "store_events"}},
+                        observed=here, expected=want)
     reqs, meta = [], []
     hb = run.results is not None
     sf = bool(sc.get("store_fail_all", False))
@@ -192,12 +210,13 @@ def run(ctx) -> Result:
         check_run(r, model, res, f"mix-{seed}-{i}")
     # the same worker on the Redis and RabbitMQ brokers (in-process fake servers): disposition per delivery
     for kind in ("redis", "rabbit"):
-        r3 = Rng(seed, f"c02/{kind}")
-        jobs = r3.sample(table_jobs(True, r3), 60 if deep else 30)
-        sc = {"jobs": jobs, "converter": "basic", "policy": {"kind": "const", "us": 300_000}, "horizon_s": 14.0, "broker": kind}
-        r = vtime.run(lambda loop, s=sc: run_scenario(s), budget=80_000_000)
-        check_run(r, model, res, f"table-{kind}")
-        res.dist[f"broker:{kind}"] += len(jobs)
+        for pol_us in (0, 300_000):          # immediate retries (re-delivered at once) and delayed ones
+            r3 = Rng(seed, f"c02/{kind}/{pol_us}")
+            jobs = r3.sample(table_jobs(True, r3), 60 if deep else 30)
+            sc = {"jobs": jobs, "converter": "basic", "policy": {"kind": "const", "us": pol_us}, "horizon_s": 14.0, "broker": kind}
+            r = vtime.run(lambda loop, s=sc: run_scenario(s), budget=120_000_000)
+            check_run(r, model, res, f"table-{kind}-{pol_us}")
+            res.dist[f"broker:{kind}"] += len(jobs)
     return res
 
 
